@@ -917,3 +917,29 @@ def tqdm_model():
     def fn(interp, st, args, kwargs):
         yield st, CM('tqdm')
     return Model('tqdm', fn)
+
+
+# ------------------------------------------------------------------ bisect
+def _bisect_left(interp, st, args, kwargs):
+    """bisect.bisect_left(xs, (key,)) on a list of (int, obj) tuples: assumed contract
+    (audited): requires xs sorted by first component; returns p with all first(i) < key
+    for i < p and first(i) >= key for i >= p.  ((a, f) < (key,) iff a < key.)"""
+    xs, key = args
+    xs = resolve(st, xs)
+    if not (is_heap(xs, 'list') and isinstance(xs.ty.cls.elem, Tup) and isinstance(key, tuple) and len(key) == 1):
+        raise Unsupported('bisect_left form')
+    cls = xs.ty.cls
+    arr, n = st.heap.read(cls, 'arr', xs.z), st.heap.read(cls, 'len', xs.z)
+    first = lambda i: cls.elem.proj(z3.Select(arr, i), 0)
+    zk = lift(key[0], INT).z
+    i, j = z3.Ints(f'{sym.fresh_name("bi")} {sym.fresh_name("bj")}')
+    interp.oblige(st, 'bisect.requires_sorted',
+                  z3.ForAll([i, j], z3.Implies(z3.And(0 <= i, i <= j, j < n), first(i) <= first(j))), tag='helper')
+    p = z3.Int(sym.fresh_name('bisect'))
+    st.assume(z3.And(0 <= p, p <= n))
+    st.assume(z3.ForAll([i], z3.Implies(z3.And(0 <= i, i < p), first(i) < zk)))
+    st.assume(z3.ForAll([i], z3.Implies(z3.And(p <= i, i < n), first(i) >= zk)))
+    yield st, SV(INT, p)
+
+
+BISECT = Obj('bisect', bisect_left=Model('bisect.bisect_left', _bisect_left))
